@@ -54,3 +54,8 @@ CHECKS['C04'] = dict(
     text='8k (sheet, injection point, balanced garbage) triples per quick run at declaration and statement level with the oracle "projections differ at most by a contiguous run at the injection index", and every prefix of 400 generated sheets/blocks (~80k parses) with the oracle "every construct complete before the cut is present unchanged". Exploration.',
     note='Trusted: DOM projection, generator-side end offsets; garbage alphabets are hand-written (40 declaration-level, 30 statement-level fragments), balanced by construction; a stray top-level ";" is not a self-contained construct and not used.',
 )
+CHECKS['C01'] = dict(
+    technique='fuzzing / property-based testing (Hypothesis): token soups, mutated well-formed and real-world sheets, nesting sweeps, encoded byte inputs x parser configurations and fetchers, with a no-exception + re-serialisable oracle and a deterministic cost meter (sys.setprofile call counting) against a polynomial bound',
+    text='8k generated inputs per quick run (500k thorough) over all parser options, entry points and fetcher kinds; oracle: DOM type returned, no exception of any type, cssText works, serialisation reparses and reserialises, call count <= A+B*n+C*n^2, growth ratio cost(2d)/cost(d) <= 12 in nesting sweeps to depth 100. Exploration; complexity is checked on generated families, not proved.',
+    note='Trusted: the cost meter (counts Python calls inside cssutils; C-level regex time only guarded by a 60 s alarm = inconclusive); constants calibrated at >=10x the worst ratio on repository sheets; function / unknown-rule nesting deeper than 6 and cyclic imports are listed findings F01-1/2/3 probed by witnesses.',
+)
